@@ -2,6 +2,7 @@ package main
 
 import (
 	"fmt"
+	"github.com/yaricom/goNEAT/v4/neat"
 	"github.com/yaricom/goNEAT/v4/neat/genetics"
 	"math"
 	"math/rand"
@@ -84,6 +85,11 @@ func c04Mating(c *Ctx, f *Family, r *rand.Rand) {
 		}
 		b = buildFromSnap(s)
 		c.Count("pairs.sibling_with_hand_tuned_weights", 1)
+	}
+	// parents that have been mated before (or not) are extended by hand, the way an application assembles genomes: the same new
+	// connection (one innovation number, weights of their own) is appended to the exported gene lists of both
+	if a != b && r.Intn(5) == 0 {
+		c04ExtendByHand(c, f, r, a, b)
 	}
 	// two different parents may carry the same genome id (every species numbers its babies from zero)
 	if a != b && r.Intn(4) == 0 {
@@ -454,4 +460,51 @@ func (m *mateMonitor) BeforeEpoch(c *Ctx, sc *EvoScenario, gen int, pop *genetic
 
 func (m *mateMonitor) AfterEpoch(c *Ctx, sc *EvoScenario, gen int, pop *genetics.Population, err error) bool {
 	return err == nil && !m.stop
+}
+
+// c04ExtendByHand appends one or two new connection genes - innovation numbers drawn from the family's generator, hence above
+// everything either genome holds - to the exported Genes lists of both genomes (not through the library's mutators). The
+// connection joins nodes both genomes have, does not end in a sensor and is new to both, so both stay well-formed and related.
+func c04ExtendByHand(c *Ctx, f *Family, r *rand.Rand, a, b *genetics.Genome) {
+	if len(a.Genes) > 240 || len(b.Genes) > 240 {
+		return
+	}
+	type key struct {
+		from, to int
+		rec      bool
+	}
+	have := map[key]bool{}
+	for _, g := range []*genetics.Genome{a, b} {
+		for _, gn := range g.Genes {
+			have[key{gn.Link.InNode.Id, gn.Link.OutNode.Id, gn.Link.IsRecurrent}] = true
+		}
+	}
+	var common []int
+	for _, n := range a.Nodes {
+		if m := b.NodeWithId(n.Id); m != nil && m.NeuronType == n.NeuronType {
+			common = append(common, n.Id)
+		}
+	}
+	added := 0
+	for try := 0; try < 40 && added < 1+r.Intn(2) && len(common) > 1; try++ {
+		k := key{common[r.Intn(len(common))], common[r.Intn(len(common))], r.Intn(3) == 0}
+		to := a.NodeWithId(k.to)
+		if have[k] || to.IsSensor() || (k.from == k.to && !k.rec) {
+			continue
+		}
+		have[k] = true
+		innov := f.Pop.NextInnovationNumber()
+		for _, g := range []*genetics.Genome{a, b} {
+			w := math.Round(r.NormFloat64()*4000)/1000 + 0
+			var tr *neat.Trait
+			if len(g.Traits) > 0 {
+				tr = g.Traits[r.Intn(len(g.Traits))]
+			}
+			g.Genes = append(g.Genes, genetics.NewGeneWithTrait(tr, w, g.NodeWithId(k.from), g.NodeWithId(k.to), k.rec, innov, w))
+		}
+		added++
+	}
+	if added > 0 {
+		c.Count("pairs.both_parents_extended_by_hand_before_the_mating", 1)
+	}
 }
